@@ -377,6 +377,7 @@ class GpRegressor:
 
             # calculate the mean and covariance
             mean = A @ (K_qx * self.alpha).T
+            mean += self.mean.spatial_gradient(pnt[0, :], self.mean_hyperpars)[:, None]
             covariance = R - (Q.T @ Q)
 
             # store the results for the current point
@@ -411,6 +412,7 @@ class GpRegressor:
 
             # calculate the mean and covariance
             dmu_dx = A @ (K_qx * self.alpha).T
+            dmu_dx += self.mean.spatial_gradient(pnt[0, :], self.mean_hyperpars)[:, None]
             dV_dx = -2 * (A * K_qx[None, :]) @ Q
 
             # store the results for the current point
